@@ -93,6 +93,18 @@ fn run_case(case: &J) -> J {
         probe_g = vec![0.5; dim];
     }
 
+    if let Some(d) = case.get("regrad") {
+        // LowRankMassMatrixStrategy::init / Chain::set_position: update_from_grad with fill 1, clamp (1e-20, 1e20)
+        use nuts_rs::Math;
+        let (p, g) = (vfb(&d["pos"]), vfb(&d["grad"]));
+        let mut pos = math.new_array();
+        math.read_from_slice(&mut pos, &p);
+        let mut grad = math.new_array();
+        math.read_from_slice(&mut grad, &g);
+        let r = catch(std::panic::AssertUnwindSafe(|| mm.update_from_grad(&mut math, &pos, &grad, 1f64, (1e-20, 1e20))));
+        let after: Params = mm.verif_params(&mut math);
+        return json!({"id": case["id"], "before": params_json(&before), "after": params_json(&after), "panic": r.err()});
+    }
     if let Some(d) = case.get("direct") {
         let (stds, mean, vals, vecs, mu) = (vfb(&d["stds"]), vfb(&d["mean"]), vfb(&d["vals"]), vvfb(&d["vecs"]), vfb(&d["mu"]));
         let lns: Vec<String> = vals.iter().map(|v| b(v.ln())).collect();
